@@ -11,6 +11,7 @@
 (*  kind "uf"  : a union sequence on util/unionfind.py UnionFind; parent map and find.       *)
 (* Clauses (names of failing clauses are the verdict; all evaluated here by TLC):            *)
 (*  TestSound / TestComplete  test(s,t) <=> <<s,t>> \in Closure(merged so far), all pairs    *)
+(*  ExplainYields   explain returns an explanation for every entailed pair test reports equal *)
 (*  ExplainMerged / ExplainEntails   Explains(used, merged, s, t)                             *)
 (*  Total       merge / test raised                                                          *)
 (*  HolTest, HolPartition  the same for the wrapper (queried pairs; all indexed terms)       *)
@@ -40,6 +41,7 @@ CoreClauses(e) ==
   IF e.exc # "" THEN {"Total"}
   ELSE (IF \E p \in Teq : p \notin cl THEN {"TestSound"} ELSE {})
        \cup (IF \E p \in Seen \X Seen : p \in cl /\ p \notin Teq THEN {"TestComplete"} ELSE {})
+       \cup (IF \E x \in SetOf(e.explains) : x[3] # "ok" /\ <<x[1], x[2]>> \in cl THEN {"ExplainYields"} ELSE {})
        \cup (IF \E x \in Ok : \E y \in SetOf(x[4]) : ~InE(y, E) THEN {"ExplainMerged"} ELSE {})
        \cup (IF \E x \in Ok : (\A y \in SetOf(x[4]) : InE(y, E)) /\ LET rm == RepMap(U, SetOf(x[4])) IN rm[x[1]] # rm[x[2]]
              THEN {"ExplainEntails"} ELSE {})
